@@ -31,6 +31,54 @@ func protectedField(w *World, e writeEv, protected map[*types.Named]bool) (*type
 	return nil, nil
 }
 
+// protectedVia: like protectedField, but when the path starts at a parameter of a module function, also looks at what
+// the callers (inside the reachable set) pass for that parameter, a few levels up.
+func protectedVia(c *Ctx, re *Reach, e writeEv, protected map[*types.Named]bool) (*types.Named, *types.Var) {
+	if o, f := protectedField(c.w, e, protected); o != nil {
+		return o, f
+	}
+	var visit func(root ssa.Value, depth int) (*types.Named, *types.Var)
+	visit = func(root ssa.Value, depth int) (*types.Named, *types.Var) {
+		par, ok := root.(*ssa.Parameter)
+		if !ok || depth > 3 {
+			return nil, nil
+		}
+		fn := par.Parent()
+		idx := -1
+		for i, q := range fn.Params {
+			if q == par {
+				idx = i
+			}
+		}
+		node := c.w.CG.Nodes[fn]
+		if node == nil {
+			return nil, nil
+		}
+		for _, in := range node.In {
+			if in.Site == nil || !re.Funcs[in.Caller.Func] {
+				continue
+			}
+			cc := in.Site.Common()
+			if calleeFunc(cc) != fn || idx >= len(cc.Args) {
+				continue
+			}
+			ap := path(cc.Args[idx])
+			for _, st := range ap.Steps {
+				if st.Field != nil {
+					if o := c.w.ownerOf(st.Field); o != nil && protected[o] {
+						return o, st.Field
+					}
+				}
+			}
+			if o, f := visit(ap.Root, depth+1); o != nil {
+				return o, f
+			}
+		}
+		return nil, nil
+	}
+	return visit(e.Target.Root, 0)
+}
+
 // readonlyRule is shared by C08.readonly, C04.noargwrite, C02.fresh.
 func readonlyRule(c *Ctx, rule string, entries []*ssa.Function, protected map[*types.Named]bool, what string) *Reach {
 	re := c.w.reach(entries...)
@@ -43,7 +91,7 @@ func readonlyRule(c *Ctx, rule string, entries []*ssa.Function, protected map[*t
 			if e.Fresh {
 				continue
 			}
-			owner, fld := protectedField(c.w, e, protected)
+			owner, fld := protectedVia(c, re, e, protected)
 			if owner == nil {
 				continue
 			}
